@@ -34,6 +34,12 @@ pub enum FaultKind {
     /// Whatever seam call happens at `k` fails with `ErrorKind::Other` and has
     /// no effect (F-RE / F-SE / F-WE / F-FE depending on the call).
     Fail,
+    /// As `Fail`, but with another error kind (library code that matches on kinds must not
+    /// turn a failure into data): 1 UnexpectedEof, 2 InvalidData, 3 InvalidInput, 4 NotFound,
+    /// 5 WouldBlock, 6 TimedOut, 7 PermissionDenied, 8 WriteZero, and 9 = "premature end":
+    /// a read or write that returns Ok(0) although bytes were requested (seek / flush:
+    /// UnexpectedEof).
+    FailAs { flavour: u8 },
     /// A write at `k` stores only the first `keep` bytes (clamped to < len), then
     /// fails (F-WT).  On a non-write call behaves like `Fail`.
     Torn { keep: usize },
@@ -99,6 +105,8 @@ pub struct DiskState {
     pub fired: BTreeMap<&'static str, u64>,
     /// faults fired during the current API call: (k, name)
     pub fired_in_call: Vec<(u64, &'static str)>,
+    /// how often each error flavour of `FailAs` fired (index = flavour)
+    pub flavour_counts: [u64; 16],
     pub call: u32,
     pub writes_in_call: u64,
     pub hash: Fnv,
@@ -132,6 +140,7 @@ impl SimDisk {
             crashed: false,
             fired: BTreeMap::new(),
             fired_in_call: Vec::new(),
+            flavour_counts: [0; 16],
             call: 0,
             writes_in_call: 0,
             hash: Fnv::new(),
@@ -222,6 +231,10 @@ impl DiskState {
         self.fired_in_call.push((k, name));
     }
 
+    fn fire_flavour(&mut self, flavour: u8) {
+        self.flavour_counts[(flavour as usize).min(15)] += 1;
+    }
+
     fn record(&mut self, seam: Seam, offset: u64, requested: u64, transferred: u64, ok: bool) {
         self.hash.write_u64(self.k);
         self.hash.write(&[seam as u8, ok as u8]);
@@ -290,6 +303,38 @@ fn other(msg: &str) -> io::Error {
     io::Error::new(io::ErrorKind::Other, msg.to_string())
 }
 
+pub const FLAVOURS: u8 = 9;
+
+pub fn flavour_name(flavour: u8) -> &'static str {
+    match flavour {
+        1 => "UnexpectedEof",
+        2 => "InvalidData",
+        3 => "InvalidInput",
+        4 => "NotFound",
+        5 => "WouldBlock",
+        6 => "TimedOut",
+        7 => "PermissionDenied",
+        8 => "WriteZero",
+        9 => "Ok(0)",
+        _ => "Other",
+    }
+}
+
+fn flavoured(flavour: u8, msg: &str) -> io::Error {
+    let k = match flavour {
+        1 | 9 => io::ErrorKind::UnexpectedEof,
+        2 => io::ErrorKind::InvalidData,
+        3 => io::ErrorKind::InvalidInput,
+        4 => io::ErrorKind::NotFound,
+        5 => io::ErrorKind::WouldBlock,
+        6 => io::ErrorKind::TimedOut,
+        7 => io::ErrorKind::PermissionDenied,
+        8 => io::ErrorKind::WriteZero,
+        _ => io::ErrorKind::Other,
+    };
+    io::Error::new(k, msg.to_string())
+}
+
 impl Read for SimDisk {
     fn read(&mut self, buf: &mut [u8]) -> io::Result<usize> {
         let mut s = self.0.borrow_mut();
@@ -317,6 +362,15 @@ impl Read for SimDisk {
                 s.fire("F-RE");
                 s.record(Seam::Read, pos, req, 0, false);
                 return Err(other("injected read error"));
+            }
+            Some(FaultKind::FailAs { flavour }) => {
+                s.fire("F-RE");
+                s.fire_flavour(flavour);
+                s.record(Seam::Read, pos, req, 0, flavour == 9);
+                if flavour == 9 {
+                    return Ok(0);
+                }
+                return Err(flavoured(flavour, "injected read error"));
             }
             Some(FaultKind::Eintr) => {
                 s.fire("F-EI");
@@ -388,6 +442,15 @@ impl Write for SimDisk {
                 if std::env::var("VERIF_DEBUG").is_ok() { eprintln!("FAILW k={} pos={} len={} buf={:?}", s.k, pos, buf.len(), &buf[..buf.len().min(8)]); }
                 s.record(Seam::Write, pos, req, 0, false);
                 return Err(other("injected write error"));
+            }
+            Some(FaultKind::FailAs { flavour }) => {
+                s.fire("F-WE");
+                s.fire_flavour(flavour);
+                s.record(Seam::Write, pos, req, 0, flavour == 9);
+                if flavour == 9 {
+                    return Ok(0);
+                }
+                return Err(flavoured(flavour, "injected write error"));
             }
             Some(FaultKind::Torn { keep }) => {
                 torn = Some(if buf.is_empty() { 0 } else { keep.min(buf.len() - 1) });
@@ -471,6 +534,12 @@ impl Write for SimDisk {
                 s.record(Seam::Flush, pos, 0, 0, false);
                 Err(other("injected flush error"))
             }
+            Some(FaultKind::FailAs { flavour }) => {
+                s.fire("F-FE");
+                s.fire_flavour(flavour);
+                s.record(Seam::Flush, pos, 0, 0, false);
+                Err(flavoured(flavour, "injected flush error"))
+            }
             _ => {
                 if s.durable.is_some() {
                     let snap = s.data.clone();
@@ -509,6 +578,12 @@ impl Seek for SimDisk {
                 if std::env::var("VERIF_DEBUG").is_ok() { eprintln!("FAILS k={} from={:?} curpos={}", s.k, from, pos); }
                 s.record(Seam::Seek, pos, 0, 0, false);
                 return Err(other("injected seek error"));
+            }
+            Some(FaultKind::FailAs { flavour }) => {
+                s.fire("F-SE");
+                s.fire_flavour(flavour);
+                s.record(Seam::Seek, pos, 0, 0, false);
+                return Err(flavoured(flavour, "injected seek error"));
             }
             _ => {}
         }
